@@ -400,6 +400,11 @@ bool Instance::configure_tx_txin() {
         if (scriptSig.size() > 0) {
             btc_segwit_logf("script sig non-empty; embedded P2SH (extracting payload)\n");
             // Embedded in P2SH -- payload extraction required
+            if (!scriptPubKey.IsPayToScriptHash()) {
+                // only the exact 23-byte template is P2SH; 'OP_HASH160 <20> OP_EQUAL OP_NOP' and the like are ordinary scripts
+                fprintf(stderr, "the input has a witness and a sig script, but the script pub key is not a P2SH script: %s\n", HexStr(scriptPubKey).c_str());
+                return false;
+            }
             CScript::const_iterator it2 = scriptSig.begin();
             if (!scriptSig.GetOp(it2, opcode, pushval)) {
                 fprintf(stderr, "can't parse sig script, or sig script ended prematurely\n");
